@@ -66,6 +66,7 @@ def run(repo: Repo, rep: Report, tier: str) -> None:
         rep.undecide("models", str(ex))
     _totality(repo, rep, tier)
     _fresh_schemas(repo, rep)
+    _fields_guard(repo, rep)
     from . import c10 as _c10
     from ..core.report import Only as _Only3
     _c10._r10_3_semantic(repo, _Only3(rep, {"R10.3"}))
@@ -136,6 +137,71 @@ def _fresh_schemas(repo: Repo, rep: Report) -> None:
                 else:
                     rep.ok("R20.7", f"{fn.name}:{'none' if o == 'none' else 'fresh object'} `{ast.unparse(st.value)[:50]}`", None, nontrivial=(o != "none"))
     rep.floor("R20.7", 40)
+
+
+def _fields_guard(repo: Repo, rep: Report) -> None:
+    """R20.8: Instance.fields skips a type-hinted name exactly when it has no dataclass Field (an attribute annotated in a
+    non-dataclass base) or its Field has init=False -- decided by evaluating the guard over the three cases."""
+    fi = repo.func(M_SCHEMA, "Instance.fields")
+    loop = next((n for n in fi.node.body if isinstance(n, ast.For)), None)
+    guard = None
+    if loop is not None:
+        for st in loop.body:
+            if isinstance(st, ast.If) and any(isinstance(x, ast.Continue) for x in st.body) and "f" in {n.id for n in ast.walk(st.test) if isinstance(n, ast.Name)}:
+                guard = st.test
+                break
+    if guard is None:
+        rep.undecide("R20.8", "skip guard of Instance.fields not found")
+        return
+
+    class _F:
+        def __init__(self, init):
+            self.init = init
+
+    def ev(e, f):
+        if isinstance(e, ast.BoolOp):  # short-circuit, like Python
+            for v in e.values:
+                r = ev(v, f)
+                if isinstance(e.op, ast.And) and not r:
+                    return False
+                if isinstance(e.op, ast.Or) and r:
+                    return True
+            return isinstance(e.op, ast.And)
+        if isinstance(e, ast.UnaryOp) and isinstance(e.op, ast.Not):
+            return not ev(e.operand, f)
+        if isinstance(e, ast.Name) and e.id == "f":
+            return f is not None
+        if isinstance(e, ast.Attribute) and isinstance(e.value, ast.Name) and e.value.id == "f":
+            if f is None:
+                raise AttributeError(e.attr)
+            return getattr(f, e.attr)
+        if isinstance(e, ast.Compare) and len(e.ops) == 1 and isinstance(e.comparators[0], ast.Constant) and e.comparators[0].value is None:
+            l = ev_obj(e.left, f)
+            return (l is None) if isinstance(e.ops[0], ast.Is) else (l is not None)
+        raise ValueError(ast.unparse(e))
+
+    def ev_obj(e, f):
+        if isinstance(e, ast.Name) and e.id == "f":
+            return f
+        raise ValueError(ast.unparse(e))
+
+    problems = []
+    for label, f, want in (("no Field", None, True), ("Field(init=False)", _F(False), True), ("Field(init=True)", _F(True), False)):
+        try:
+            got = bool(ev(guard, f))
+        except AttributeError as ex:
+            problems.append(f"{label}: the guard dereferences f.{ex} although there is no Field")
+            continue
+        except ValueError as ex:
+            rep.undecide("R20.8", f"guard `{ast.unparse(guard)}` not evaluable ({ex})")
+            return
+        if got != want:
+            problems.append(f"{label}: skipped={got}, expected {want}")
+    if problems:
+        rep.violation("R20.8", fi.key, f"skip guard `{ast.unparse(guard)}`: " + "; ".join(problems),
+                      "a name that is annotated in a non-dataclass base class reaches `f.default` with f = None: build_json_schema raises AttributeError for a supported class", loc=fi.loc)
+    else:
+        rep.ok("R20.8", f"Instance.fields skips names without a Field and init=False fields (`{ast.unparse(guard)}`)", None)
 
 
 def _closure(repo: Repo, rep: Report) -> None:
@@ -521,3 +587,6 @@ def _totality(repo: Repo, rep: Report, tier: str) -> None:
 _ADD8 = ' R20.7: schema creators return objects created by the call, never module-level ones. Borrowed: R10.3 (no strategy lookup with an unhashable type).'
 EXPLANATION += _ADD8
 LEVEL_TEXT += _ADD8
+_ADD16 = ' R20.8: the skip guard of Instance.fields, evaluated over {no Field, init=False, init=True}.'
+EXPLANATION += _ADD16
+LEVEL_TEXT += _ADD16
